@@ -257,6 +257,31 @@ class Iter:
         return "Iter(%d/%d)" % (self.pos, len(self.vec.items))
 
 
+class SinglePass:
+    """vt::InIt: single-pass input iterator. All copies share one stream; the end sentinel has no stream."""
+    __slots__ = ("stream",)
+
+    def __init__(self, stream):
+        self.stream = stream   # dict(items=[...], pos=int) or None for the sentinel
+
+    def copy(self):
+        return SinglePass(self.stream)
+
+    def at_end(self):
+        return self.stream is None or self.stream["pos"] >= len(self.stream["items"])
+
+    def take_all(self):
+        if self.stream is None:
+            return []
+        out = self.stream["items"][self.stream["pos"]:]
+        self.stream["pos"] = len(self.stream["items"])
+        return out
+
+    def __repr__(self):
+        return "InIt(end)" if self.stream is None else "InIt(%d/%d)" % (self.stream["pos"], len(self.stream["items"]))
+
+
+INIT = "vt::InIt<"
 ARCH = "vt::Arch"
 # pure integer -> scalar helpers (callers pass template constants and loop counters bounded by them, never window
 # indices): exact integer arithmetic inside them is constant propagation, not index arithmetic
@@ -1351,6 +1376,15 @@ class Interp:
             raise OutOfFragment("unresolved constructor")
         rq = d.get("recqn", "")
         args = [self.ev(c) for c in kids(e)]
+        if rq.startswith(INIT):
+            vals = [val(a) for a in args if a is not DEFAULTARG]
+            if not vals:
+                return SinglePass(None)
+            if isinstance(vals[0], SinglePass):
+                return vals[0].copy()
+            if isinstance(vals[0], Vec):
+                return SinglePass(dict(items=vals[0].items, pos=0))
+            raise OutOfFragment("vt::InIt constructed from %r" % (vals[0],))
         if rq == ARCH:
             # the scalar archetype is a scalar: value-initialised, copied, or built from an integer
             vals = [val(a) for a in args if a is not DEFAULTARG]
@@ -1396,6 +1430,8 @@ class Interp:
                 return Vec([copy_value(x) for x in v.items])
             if isinstance(v, Iter) and len(vals) >= 2 and isinstance(vals[1], Iter):
                 return Vec([copy_value(x) for x in v.vec.items[v.pos:vals[1].pos]])
+            if isinstance(v, SinglePass) and len(vals) >= 2 and isinstance(vals[1], SinglePass):
+                return Vec([copy_value(x) for x in v.take_all()])
             if isinstance(v, int) and (v < 0 or v > 100000):
                 # std::vector(n) with an absurd size: length_error / bad_alloc in the real program
                 raise Thrown("std::length_error", None, e.get("l"))
@@ -1473,6 +1509,9 @@ class Interp:
             raise OutOfFragment("unresolved call at line %s" % e.get("l"))
         d = ci.decl
         qn = d["qn"]
+        if d.get("recqn", "").startswith(INIT) or (qn.startswith("vt::operator") and d.get("params") and
+                                                   d["params"][0]["type"].replace("const ", "").startswith(INIT)):
+            return self._init_call(ci, d, e)
         if d.get("recqn") == ARCH or (qn.startswith("vt::operator") and d.get("pfile", "").endswith("/arch.h")):
             return self._arch_call(ci, d, e)
         f = self.func(d["id"]) if (d.get("inroot") or qn.startswith("bspline::")) else None
@@ -1565,6 +1604,36 @@ class Interp:
                 raise OutOfFragment("no operator== for %s" % a.cls)
             return self.truth(self.call(eq, a, [box(b)]))
         raise OutOfFragment("equality of %r and %r" % (a, b))
+
+    def _init_call(self, ci, d, e):
+        name = d["name"]
+        if ci.obj is not None:
+            lv = self.ev(ci.obj)
+            it = val(lv)
+            if not isinstance(it, SinglePass):
+                raise OutOfFragment("vt::InIt member on %r" % (it,))
+            if name == "operator*":
+                if it.at_end():
+                    raise ModelUB("a single-pass iterator is dereferenced after its range has been consumed")
+                return LV(it.stream["items"], it.stream["pos"])
+            if name == "operator++":
+                if it.at_end():
+                    raise ModelUB("a single-pass iterator is incremented past the end of its range")
+                it.stream["pos"] += 1
+                return lv if not ci.args else None
+            if name == "operator=":
+                src = self.rv(ci.args[0])
+                it.stream = src.stream
+                return lv
+            raise OutOfFragment("vt::InIt member %s" % name)
+        x, y = self.rv(ci.args[0]), self.rv(ci.args[1])
+        if not (isinstance(x, SinglePass) and isinstance(y, SinglePass)):
+            raise OutOfFragment("vt::InIt comparison with %r" % (y,))
+        # only comparisons against the end of the range are meaningful for input iterators
+        if x.stream is not None and y.stream is not None and x.stream is not y.stream:
+            raise ModelUB("comparison of single-pass iterators over different streams")
+        same = x.at_end() == y.at_end()
+        return 1 if (same == (name == "operator==")) else 0
 
     def _int_to_scalar(self, v, e):
         if isinstance(v, int) and abs(v) > 2147483647:
@@ -1662,6 +1731,8 @@ class Interp:
                 if base == "std::min":
                     return y if self._less(comp, y, x) else x
                 return y if self._less(comp, x, y) else x
+            if base == "std::distance" and isinstance(V[0], SinglePass):
+                return len(V[0].take_all())   # counting consumes a single-pass range
             if base == "std::distance":
                 a, b = V
                 if a.vec is not b.vec:
@@ -1945,6 +2016,8 @@ class Interp:
                         if a.vec is not b.vec or a.pos > b.pos:
                             raise ModelUB("invalid iterator range")
                         return SharedPtr(Vec([copy_value(x) for x in a.vec.items[a.pos:b.pos]]))
+                    if isinstance(V[0], SinglePass) and len(V) > 1 and isinstance(V[1], SinglePass):
+                        return SharedPtr(Vec([copy_value(x) for x in V[0].take_all()]))
                 raise OutOfFragment("make_shared of %s" % t)
             if qn.startswith("std::operator") and name in ("operator==", "operator!="):
                 base = "std::" + name
